@@ -125,12 +125,7 @@ func runCheck(repo, verif, prop, tier string) int {
 	known := loadKnownFindings(filepath.Join(verif, "known_findings.txt"))
 	// a recorded run-time oracle clause is skipped whatever property is being checked (the function may carry several property
 	// tags); its KNOWN-FINDING line is printed under the property the finding is recorded for
-	knownRacClauses = map[string]bool{}
-	for _, kf := range known {
-		if kf.Kind == "finding" && kf.Clause != "" && strings.HasSuffix(kf.Obligation, "#bounded-contract-search") {
-			knownRacClauses[strings.TrimSuffix(kf.Obligation, "#bounded-contract-search")+"|"+kf.Clause] = true
-		}
-	}
+	setKnownRacClauses(known)
 	replayDir := filepath.Join(verif, "replays", prop)
 	os.RemoveAll(replayDir)
 
@@ -385,6 +380,15 @@ func claimedCategory(verif, prop string) string {
 }
 
 func round3(x float64) float64 { return float64(int(x*1000+0.5)) / 1000 }
+
+func setKnownRacClauses(known []knownFinding) {
+	knownRacClauses = map[string]bool{}
+	for _, kf := range known {
+		if kf.Kind == "finding" && kf.Clause != "" && strings.HasSuffix(kf.Obligation, "#bounded-contract-search") {
+			knownRacClauses[strings.TrimSuffix(kf.Obligation, "#bounded-contract-search")+"|"+kf.Clause] = true
+		}
+	}
+}
 
 func matchKnown(known []knownFinding, prop, obl string) *knownFinding {
 	for i := range known {
